@@ -373,32 +373,68 @@ class TokenLanguages:
                     self.rule_of_kind.setdefault(s[1], []).append(name)
 
     def validated_by(self, kind: str, attr: str) -> Optional[str]:
-        """If `kind.attr` is a method that only returns pieces of `self.val` matched by a module-level
-        compiled regex (X.fullmatch(self.val) / X.match), return that regex: the pieces cannot contain
-        characters the regex does not admit."""
-        import ast as _ast
+        """If `kind.attr()` only returns pieces of `self.val` as captured by an anchored match of a constant regex
+        (REGEX.fullmatch(self.val).groups(), possibly sliced) and raises when there is no match, return that regex: the
+        pieces cannot contain characters the regex does not admit. Decided by evaluating the method."""
         name = attr[:-2] if attr.endswith("()") else attr
+        cache = self.__dict__.setdefault("_validated_cache", {})
+        if (kind, name) in cache:
+            return cache[(kind, name)]
+        cache[(kind, name)] = None
         repo = self.env.repo
         ci = repo.classes.get("odata_query.ast." + kind)
-        if ci is None:
-            return None
-        r = repo.lookup_method(ci.qual, name)
+        r = repo.lookup_method(ci.qual, name) if ci is not None else None
         if r is None:
             return None
-        fn = r[1]
-        for n in _ast.walk(fn):
-            if isinstance(n, _ast.Call) and isinstance(n.func, _ast.Attribute) and n.func.attr in ("fullmatch",) and \
-                    isinstance(n.func.value, _ast.Name) and n.args and _ast.unparse(n.args[0]) == "self.val":
-                try:
-                    val = repo.fold(r[0].module, n.func.value)
-                except Exception:
+        from .interp import Interp, KindEnv
+        from .values import Const, NodeV, PyList, PyTuple, Sym
+        it = Interp(repo, self.env.schema, KindEnv(self.env.schema))
+        try:
+            paths = it.explore(lambda _i: (r[0].module, r[1], [NodeV("node", {kind})], {}, r[0].qual), max_paths=3000)
+        except AnalysisError:
+            return None
+        patterns = set()
+        saw_raise = False
+
+        def regex_of(v) -> Optional[str]:
+            """pattern P if v is (a slice of) a group of P.fullmatch(node.val), else None"""
+            cur = v
+            for _ in range(4):
+                if isinstance(cur, Sym) and cur.op == "getslice":
+                    cur = cur.args[0]
+                elif type(cur).__name__ == "Str" and len(cur.parts) == 1 and cur.parts[0][0] == "dyn":
+                    cur = cur.parts[0][1]
+                else:
+                    break
+            if not (isinstance(cur, Sym) and cur.op == "elem"):
+                return None
+            g = cur.args[0]
+            if not (isinstance(g, Sym) and g.op == "call" and isinstance(g.args[0], Sym) and g.args[0].op == "attr" and g.args[0].args[1] == "groups"):
+                return None
+            m = g.args[0].args[0]
+            if not (isinstance(m, Sym) and m.op == "call" and isinstance(m.args[0], Sym) and m.args[0].op == "attr" and m.args[0].args[1] == "fullmatch"):
+                return None
+            rxv = m.args[0].args[0]
+            if not (isinstance(rxv, Sym) and rxv.op == "regex" and len(m.args[1]) == 1 and "field(node,'val')" in repr(m.args[1][0])):
+                return None
+            return rxv.args[0]
+
+        for p in paths:
+            if p.outcome == "raise":
+                saw_raise = True
+                continue
+            v = p.value
+            items = list(v.items) if isinstance(v, (PyTuple, PyList)) and not getattr(v, "loop_parts", None) else [v]
+            for x in items:
+                if isinstance(x, Const) and x.v is None:
+                    continue
+                pat = regex_of(x)
+                if pat is None:
                     return None
-                from .model import Regex
-                if isinstance(val, Regex):
-                    # the method must raise when there is no match (otherwise unmatched text could flow on)
-                    raises = any(isinstance(x, _ast.Raise) for x in _ast.walk(fn))
-                    return val.pattern if raises else None
-        return None
+                patterns.add(pat)
+        if len(patterns) == 1 and saw_raise:
+            cache[(kind, name)] = next(iter(patterns))
+        return cache[(kind, name)]
 
     def chars_possible(self, kinds: Set[str], chars: str, attr: str = "") -> Dict[str, Optional[str]]:
         """For each char: the name of a token rule (of these kinds) whose language uses it, or None."""
